@@ -406,6 +406,8 @@ impl Decode for HunkHeader {
         header.new_size = size.parse()?;
 
         let s = s.strip_prefix(' ').unwrap_or(s);
+        // Nb. The line terminator is not part of the header text.
+        let s = s.strip_suffix('\n').unwrap_or(s);
         header.text = s.as_bytes().to_vec();
 
         Ok(header)
